@@ -53,6 +53,7 @@ type encEngine struct {
 	onPath   map[ast.Expr]bool
 	resMemo  map[string]dom
 	rawName  map[ast.Expr]bool // expressions whose P/K value contains an unescaped raw name (KeepNames)
+	usePos   token.Pos         // position of the use being decided (flow-sensitivity for range variables)
 }
 
 // nameKeyedMap: maps of the document model keyed by raw names: a map-typed
@@ -190,7 +191,18 @@ func (e *encEngine) domSet(fi *core.FuncInfo, x ast.Expr) []dom {
 	set := map[dom]bool{}
 	inner := e.objStack[o]
 	e.objStack[o] = true
+	// the variable of a range loop gets a fresh value at the head of every iteration: an assignment further down in
+	// the body does not reach a use above it
+	isRangeVar := false
 	for _, d := range ld.Defs[o] {
+		if d.Kind == core.DefRangeKey || d.Kind == core.DefRangeVal {
+			isRangeVar = true
+		}
+	}
+	for _, d := range ld.Defs[o] {
+		if isRangeVar && e.usePos != token.NoPos && (d.Kind == core.DefAssign || d.Kind == core.DefMulti) && d.Pos > e.usePos {
+			continue
+		}
 		switch d.Kind {
 		case core.DefRangeKey:
 			set[e.mapKeyDomain(fi, d.Expr)] = true
@@ -709,7 +721,9 @@ func encRules(c *Ctx) {
 			}
 			if want == dX || got == dX {
 				// several possible domains (flow-insensitive): a definite mismatch only if every one mismatches
+				e.usePos = key.Pos()
 				set := e.domSetFresh(fi, key)
+				e.usePos = token.NoPos
 				all := len(set) > 0 && want != dX
 				for _, d := range set {
 					if d == dX || d == dS || d == want {
